@@ -32,6 +32,15 @@ func (e *Exec) unop(s *State, f *Frame, in *ssa.UnOp) Value {
 			}
 		}
 		v := e.load(s, p.Ref)
+		if sv, ok := v.(*SliceV); ok && isString(in.Type()) {
+			// *(*string)(unsafe.Pointer(&b)): the slice header read as a string header
+			if sv.Base == nil {
+				return e.zeroVal(in.Type())
+			}
+			if arr, ok := e.load(s, sv.Base).(*Term); ok {
+				return &StringV{Arr: arr, Off: sv.Off, Len: sv.Len}
+			}
+		}
 		if t, ok := v.(*Term); ok && t.Sort.K == KBV {
 			// values of integer variables and fields (not array elements) are index-like
 			elem := false
@@ -121,7 +130,16 @@ func (e *Exec) binop(s *State, op token.Token, x, y Value, xt, yt types.Type, ke
 	signed := isSigned(xt)
 	switch op {
 	case token.ADD:
-		return c.Add(a, b)
+		r := c.Add(a, b)
+		if e.addrOf != nil {
+			// pointer arithmetic on the symbolic address of a byte-array element
+			if ai, ok := e.addrOf[a.S]; ok {
+				e.addrOf[r.S] = &addrInfo{base: ai.base, idx: c.Add(ai.idx, b), lo: ai.lo, hi: ai.hi}
+			} else if ai, ok := e.addrOf[b.S]; ok {
+				e.addrOf[r.S] = &addrInfo{base: ai.base, idx: c.Add(ai.idx, a), lo: ai.lo, hi: ai.hi}
+			}
+		}
+		return r
 	case token.SUB:
 		return c.Sub(a, b)
 	case token.MUL:
@@ -381,6 +399,12 @@ func (e *Exec) convert(s *State, x Value, from, to types.Type, key ssa.Instructi
 			panic(unsupported("convert scalar to " + to.String()))
 		}
 		if tb.Kind() == types.UnsafePointer {
+			if ai, ok := e.addrOf[t.S]; ok {
+				// uintptr arithmetic on the data pointer of a byte slice: a pointer to element idx of that
+				// array. The runtime performs no check here, so being inside the slice is an obligation.
+				e.check(s, "unsafe", c.And(c.ULe(ai.lo, ai.idx), c.ULt(ai.idx, ai.hi)), posOf(key), key)
+				return &PtrV{Ref: ai.base.extend(PElem{Index: ai.idx}), Nil: False}
+			}
 			return &OpaqueV{Typ: to, ID: e.c.ZExt(t, 64), Nil: e.c.Eq(e.c.ZExt(t, 64), BVConst(0, 64))}
 		}
 		if isString(to) {
@@ -448,7 +472,16 @@ func (e *Exec) convert(s *State, x Value, from, to types.Type, key ssa.Instructi
 			return t
 		}
 		if b, ok := tu.(*types.Basic); ok && b.Kind() == types.UnsafePointer {
-			return t // keep the reference; unsafe arithmetic on it is unsupported
+			return t // keep the reference
+		}
+		if b, ok := tu.(*types.Basic); ok && b.Kind() == types.Uintptr && t.Ref != nil && t.raw != nil {
+			// address of a byte-array element as an integer: symbolic address tied to (array, index)
+			a := c.Fresh("addr", SBV(64))
+			if e.addrOf == nil {
+				e.addrOf = map[string]*addrInfo{}
+			}
+			e.addrOf[a.S] = &addrInfo{base: t.raw.base, idx: t.raw.idx, lo: t.raw.lo, hi: t.raw.hi}
+			return a
 		}
 	case *OpaqueV:
 		if _, ok := tu.(*types.Pointer); ok {
